@@ -7,7 +7,7 @@ TAGS = ['senter', 'sexit', 'setflag', 'tfin']
 RULE = ('(a) scope trees: nested (until-)scopes (depth <= 3, <= 3 children each, volatile or delayed), bodies and children that '
         'sleep/raise (regular and privileged types)/return, cancels from inside and from a separate activity after t time units '
         'and k postponements, deadlines and flags on a coarse time grid, everything wrapped in handlers that log what they catch; '
-        '(b) random valid whole-API programs (no usage errors); non-trivial = an until-scope was entered')
+        '(b) random valid whole-API programs (no usage errors); (c) scope trees started by the real usim.run(.., till=T) with T on the grid; non-trivial = an until-scope was entered')
 
 
 #: known finding F10: until(a | b) / until(a & b) never fire (connectives have no subscription path)
@@ -20,13 +20,33 @@ def nontrivial(impl):
     return any(':senter:' in e and e.split(':')[4].split(',')[2] != '0' for e in impl['events'])
 
 
-SOURCES = [scopesuite.scope_tree, scopesuite.valid_scenario]
+def with_till(rng):
+    """a scope-tree program started with the real `usim.run(.., till=T)`"""
+    from fractions import Fraction as F
+    sc = scopesuite.scope_tree(rng)
+    start = next(f[1] for f in sc if isinstance(f, list) and f and f[0] == 'start')
+    t = start + rng.choice([0, F(1, 2), 1, 1, 2, 3, 5])
+    i = next(k for k, f in enumerate(sc) if isinstance(f, list) and f and f[0] == 'start')
+    return sc[:i + 1] + [['till', t]] + sc[i + 1:]
+
+
+def till_of(sc):
+    return next((f[1] for f in sc if isinstance(f, list) and f and f[0] == 'till'), None)
+
+
+def extra(sc):
+    import dsl
+    t = till_of(sc)
+    return [('C07till', dsl.t2s(t))] if t is not None else []
+
+
+SOURCES = [scopesuite.scope_tree, scopesuite.valid_scenario, with_till]
 
 
 def run(tier, seed, drv):
     return msuite.standard_run(PID, 'C07', TAGS, tier, seed, drv, SOURCES, nontrivial=nontrivial, rule=RULE,
-                               n_quick=200, n_thorough=6000, probes=[('F10', F10_PROBE)])
+                               n_quick=200, n_thorough=6000, probes=[('F10', F10_PROBE)], judge_extra=extra)
 
 
 def replay(data, drv):
-    return msuite.standard_replay(PID, 'C07', TAGS, data, drv)
+    return msuite.standard_replay(PID, 'C07', TAGS, data, drv, judge_extra=extra)
